@@ -227,7 +227,9 @@ pub struct FuncEntry {
     pub key: Uuid,
     #[serde(skip)]
     pub token: RawToken,
-    #[serde(skip)]
+    // Part of the analysis result (handlers are entered with every register
+    // live), so it is part of the dump; ordinary entries are written as before
+    #[serde(default, skip_serializing_if = "std::ops::Not::not")]
     pub is_interrupt_handler: bool,
 }
 
